@@ -442,6 +442,8 @@ func init() {
 			c.ruleNBitNegotiated()
 			c.rulePeerDownResets("E6.peerdown-resets")
 			c.ruleStalePurgeGate()
+			c.ruleAdjRibStoresIncoming()
+			c.ruleRestartFlagCleared("E6.restart-flag-cleared")
 			c.ruleComparatorChain()
 		},
 	})
